@@ -319,6 +319,9 @@ func (c *Ctx) verify() {
 	s.allocBase = "alloc0"
 	fr := c.newFrame(fn)
 	s.frames = []*Frame{fr}
+	if want := c.fc.Opts["calledfrom"]; want != "" {
+		c.checkCallers(s, want)
+	}
 	// parameters
 	env := c.newSpecEnv(s, fr)
 	for i, p := range fn.Params {
@@ -2731,4 +2734,95 @@ func firstPos(b *ssa.BasicBlock) token.Pos {
 		}
 	}
 	return token.NoPos
+}
+
+// checkCallers (opt calledfrom A | B): a precondition on the calling CONTEXT, decided by the generator itself on the
+// loaded program — every reference to the function in the module's non-test code is a direct call (or defer/go) made by one
+// of the listed functions. One obligation "callers:<caller>" per referring function: trivially true for a listed caller,
+// false (reported as a violation without an input) for any other, and for any use of the function as a value.
+func (c *Ctx) checkCallers(s *State, want string) {
+	allowed := map[string]bool{}
+	for _, w := range strings.Split(want, "|") {
+		allowed[strings.TrimSpace(w)] = true
+	}
+	target := c.fn
+	seen := map[string]bool{}
+	var visit func(f *ssa.Function)
+	report := func(f *ssa.Function, in ssa.Instruction, direct bool) {
+		name := relFuncName(f)
+		if f.Pkg != nil && target.Pkg != nil && f.Pkg != target.Pkg {
+			name = f.Pkg.Pkg.Name() + "." + name
+		}
+		key := name
+		if !direct {
+			key += "#value"
+		}
+		if seen[key] {
+			return
+		}
+		seen[key] = true
+		goal := "false"
+		if direct && allowed[name] {
+			goal = "true"
+		}
+		what := "calls"
+		if !direct {
+			what = "uses as a value"
+		}
+		c.oblige(s.clone(), "callers", key, goal, fmt.Sprintf("%s %s %s; allowed callers: %s", name, what, relFuncName(target), want), in.Pos())
+	}
+	visit = func(f *ssa.Function) {
+		for _, b := range f.Blocks {
+			for _, in := range b.Instrs {
+				var com *ssa.CallCommon
+				switch x := in.(type) {
+				case *ssa.Call:
+					com = x.Common()
+				case *ssa.Defer:
+					com = x.Common()
+				case *ssa.Go:
+					com = x.Common()
+				}
+				if com != nil && !com.IsInvoke() {
+					if callee, ok := com.Value.(*ssa.Function); ok && (callee == target || callee.Origin() == target) {
+						report(f, in, true)
+					}
+				}
+				for _, op := range in.Operands(nil) {
+					if op == nil || *op == nil {
+						continue
+					}
+					if callee, ok := (*op).(*ssa.Function); ok && (callee == target || (callee.Origin() != nil && callee.Origin() == target)) {
+						if com != nil && com.Value == *op {
+							continue
+						}
+						report(f, in, false)
+					}
+				}
+			}
+		}
+		for _, a := range f.AnonFuncs {
+			visit(a)
+		}
+	}
+	for _, p := range c.eng.prog.AllPackages() {
+		if p.Pkg == nil || !strings.HasPrefix(p.Pkg.Path(), c.eng.modPath) {
+			continue
+		}
+		for _, m := range p.Members {
+			switch mm := m.(type) {
+			case *ssa.Function:
+				visit(mm)
+			case *ssa.Type:
+				for _, t := range []types.Type{mm.Type(), types.NewPointer(mm.Type())} {
+					ms := c.eng.prog.MethodSets.MethodSet(t)
+					for i := 0; i < ms.Len(); i++ {
+						if mf := c.eng.prog.MethodValue(ms.At(i)); mf != nil && mf.Synthetic == "" {
+							visit(mf)
+						}
+					}
+				}
+			}
+		}
+	}
 }
